@@ -12,6 +12,7 @@ pub struct Source {
 }
 
 /// The shared "C01 input space": a deterministic stream of (source formula, file, format).
+#[derive(Clone)]
 pub struct Input {
     pub id: String,
     pub n: u32,
